@@ -14,6 +14,9 @@ TProfile ==
            n == Len(e.pts) IN
        /\ e.out = "ok"
        /\ n >= 3
+       \* every point is one of the outcomes of the design model; the harness reports "offRoot" for a returned temperature at which
+       \* the residual is neither small nor stationary (a root exists nearby and was missed) -- no action of WallProfile.tla produces it
+       /\ \A k \in 1..n : e.pts[k].kind \in Outcomes
        /\ e.succ <=> (\A k \in 1..n : e.pts[k].kind # "none")               \* SuccIffNoGiveUp
        /\ e.succ =>
             /\ \A k \in 1..n :
